@@ -1,4 +1,107 @@
-import GristModel.Recalc
+/-
+C05  Incremental recalculation equals recalculation from scratch.
+Model: GristModel/Recalc.lean.  Helper lemmas: GristProofs/Recalc*.lean (see the header of
+GristProps/C18.lean for `WFState`, `Good`, `Inv`, `DependsOnSelf`, `Ev.isCalc`).
+-/
+import GristProofs.RecalcExamples
 namespace Grist.Recalc
-theorem placeholder_C05 : True := trivial
+
+/-! ### (U1) the invariant is preserved by every transition -/
+
+/-- `closure` really is closed under readers: it contains the seed, and with a cell every formula
+    cell `< n` that may read it (`n` rounds of `readersStep` reach a fixpoint). -/
+theorem closure_closed' (p : Prog) (n : Nat) (s : List Nat) :
+    (∀ x ∈ s, x < n → x ∈ closure p n s) ∧
+    (∀ d ∈ closure p n s, ∀ k, k < n → p.formula k = true → d ∈ p.deps k → k ∈ closure p n s) :=
+  ⟨fun _ hx hlt => closure_seed p n s hx hlt,
+   fun _ hd _ hk hf hdep => closure_closed p n s hd hk hf hdep⟩
+
+/-- `write`, `eval` and `circ` all preserve `Inv` and `WFState` -/
+theorem inv_preserved {p : Prog} (hr : p.Respects) {n : Nat} {st st' : State} {e : Ev}
+    (hw : WFState p n st) (hi : Inv p n st) (h : step p n st e = some st') :
+    Inv p n st' ∧ WFState p n st' :=
+  inv_step hr hw hi h
+
+example : ∃ st', step cycProg 4 cycSt (.write 3 (.num 7)) = some st' ∧
+    Inv cycProg 4 st' ∧ WFState cycProg 4 st' :=
+  ⟨_, rfl, inv_preserved (e := .write 3 (.num 7)) cycProg_respects cycSt_wf cycSt_inv rfl⟩
+
+/-! ### (U2) quiescent states are consistent -/
+
+/-- after any accepted run from a state with the invariant, a quiescent state has every formula
+    cell equal to its formula's value, or `circ` on a dependency cycle -/
+theorem quiescent_consistent {p : Prog} (hr : p.Respects) {n : Nat} {st0 st : State}
+    {es : List Ev} (hw : WFState p n st0) (hi : Inv p n st0) (h : run p n st0 es = some st)
+    (hq : st.dirty = []) :
+    ∀ c, c < n → p.formula c = true →
+      st.σ c = p.f c st.σ ∨ (st.σ c = V.circ ∧ DependsOnSelf p n c) :=
+  inv_quiescent (inv_run hr es hw hi h).1 hq
+
+/-- a write followed by a complete recalculation in the diamond document -/
+example : ∃ st, run diaProg 4 diaSt [.eval 1, .eval 2, .eval 3, .write 0 (.num 1),
+      .eval 2, .eval 1, .eval 3] = some st ∧ st.dirty = [] ∧ st.σ 3 = V.num 5 :=
+  ⟨_, rfl, by decide, by decide⟩
+
+/-! ### (U3) the acyclic case: unique fixpoint, so incremental = from scratch -/
+
+/-- with a rank function, two stores with the same data cells that both satisfy every formula
+    agree on all cells `< n` -/
+theorem acyclic_unique {p : Prog} (hr : p.Respects) {n : Nat} {rank : Nat → Nat}
+    (hdl : ∀ c, c < n → ∀ d ∈ p.deps c, d < n) (hrk : Ranked p n rank) {σ1 σ2 : Nat → V}
+    (hdata : ∀ c, c < n → p.formula c = false → σ1 c = σ2 c)
+    (h1 : ∀ c, c < n → p.formula c = true → σ1 c = p.f c σ1)
+    (h2 : ∀ c, c < n → p.formula c = true → σ2 c = p.f c σ2) :
+    ∀ c, c < n → σ1 c = σ2 c :=
+  fixpoint_unique hr hdl hrk hdata h1 h2
+
+/-- with a rank function the cycle branch is never enabled -/
+theorem circ_never_enabled_acyclic {p : Prog} (hr : p.Respects) {n : Nat} {rank : Nat → Nat}
+    {st : State} (hw : WFState p n st) (hrk : Ranked p n rank) (c : Nat) :
+    step p n st (.circ c) = none :=
+  circ_disabled_of_ranked hr hw hrk c
+
+/-- Two accepted runs (any events) from two states with the invariant — e.g. an incremental
+    history and a from-scratch load with every formula cell dirty — that both end quiescent with the
+    same data cells hold the same values in all cells `< n`. -/
+theorem fresh_run_agrees {p : Prog} (hr : p.Respects) {n : Nat} {rank : Nat → Nat}
+    (hrk : Ranked p n rank) {s1 s2 t1 t2 : State} {es1 es2 : List Ev}
+    (hw1 : WFState p n s1) (hi1 : Inv p n s1) (hw2 : WFState p n s2) (hi2 : Inv p n s2)
+    (r1 : run p n s1 es1 = some t1) (r2 : run p n s2 es2 = some t2)
+    (q1 : t1.dirty = []) (q2 : t2.dirty = [])
+    (hdata : ∀ c, c < n → p.formula c = false → t1.σ c = t2.σ c) :
+    ∀ c, c < n → t1.σ c = t2.σ c := by
+  obtain ⟨i1, w1⟩ := inv_run hr es1 hw1 hi1 r1
+  obtain ⟨i2, w2⟩ := inv_run hr es2 hw2 hi2 r2
+  exact fixpoint_unique hr hw1.deps_lt hrk hdata
+    (quiescent_fixpoint_ranked w1 i1 hrk q1) (quiescent_fixpoint_ranked w2 i2 hrk q2)
+
+/-- the same when the runs are recalculations only (eval/circ events): it is enough that the data
+    cells agree at the start -/
+theorem fresh_recalc_agrees {p : Prog} (hr : p.Respects) {n : Nat} {rank : Nat → Nat}
+    (hrk : Ranked p n rank) {s1 s2 t1 t2 : State} {es1 es2 : List Ev}
+    (hw1 : WFState p n s1) (hi1 : Inv p n s1) (hw2 : WFState p n s2) (hi2 : Inv p n s2)
+    (c1 : ∀ e ∈ es1, e.isCalc = true) (c2 : ∀ e ∈ es2, e.isCalc = true)
+    (r1 : run p n s1 es1 = some t1) (r2 : run p n s2 es2 = some t2)
+    (q1 : t1.dirty = []) (q2 : t2.dirty = [])
+    (hdata : ∀ c, c < n → p.formula c = false → s1.σ c = s2.σ c) :
+    ∀ c, c < n → t1.σ c = t2.σ c :=
+  fresh_run_agrees hr hrk hw1 hi1 hw2 hi2 r1 r2 q1 q2 (fun c hc hf => by
+    rw [calc_run_untouched es1 c1 r1 c (.inl hf), calc_run_untouched es2 c2 r2 c (.inl hf)]
+    exact hdata c hc hf)
+
+/-- incremental (load, recalc, write, recalc of the two readers … ) vs from scratch with the new
+    datum: the hypotheses are satisfiable and the results agree -/
+def diaSt' : State := { σ := fun c => if c = 0 then .num 1 else .num 0, dirty := [3, 2, 1] }
+
+example : ∃ t1 t2,
+    run diaProg 4 diaSt [.eval 1, .eval 2, .eval 3, .write 0 (.num 1), .eval 2, .eval 1, .eval 3]
+      = some t1 ∧
+    run diaProg 4 diaSt' [.eval 1, .eval 2, .eval 3] = some t2 ∧
+    ∀ c, c < 4 → t1.σ c = t2.σ c := by
+  refine ⟨_, _, rfl, rfl, ?_⟩
+  refine fresh_run_agrees diaProg_respects diaProg_ranked diaSt_wf diaSt_inv
+    (es1 := [.eval 1, .eval 2, .eval 3, .write 0 (.num 1), .eval 2, .eval 1, .eval 3])
+    (es2 := [.eval 1, .eval 2, .eval 3]) (s2 := diaSt') ⟨by decide, by decide, by decide⟩ (Inv.of_all_dirty (by decide)) rfl rfl
+    (by decide) (by decide) (by decide)
+
 end Grist.Recalc
